@@ -1,0 +1,19 @@
+//go:build verif
+
+// Contracts for package cpp/ndjson, read by /verif/govc (comment-only file; excluded from every build without the tag "verif").
+package ndjson
+
+// docs/reference/ndjson.md: a union is written without its tag only when the JSON kinds of its cases are pairwise
+// disjoint. The decision loop collects the kinds of the cases it has seen (null included); each case adds its kinds,
+// and a case whose kinds overlap the collection switches to the tagged form, which is never switched back.
+//@ func writeUnionConverters
+//@   property C02
+//@   requires unionType != nil
+// (`simplfied` is captured by the printing closures further down, so it lives in a cell: old() is its content at the
+// head of the iteration, next() at the end)
+//@   iteration 0: kinds_of_a_case_are_added_to_the_collection: next(possibleTypes) == (possibleTypes | lastResult(ndjsoncommon.GetJsonDataType))
+//@   iteration 0: overlap_forces_the_tagged_form: (lastResult(ndjsoncommon.GetJsonDataType) & possibleTypes) != 0 ==> !next(simplfied)
+//@   iteration 0: tagged_form_is_final: !old(simplfied) ==> !next(simplfied)
+
+// Output may not depend on the iteration order of a Go map (C12): decided per `range` over a map.
+//@ map-order C12 package
